@@ -346,7 +346,16 @@ func (m *Message) GetClassAdRaw(ctx context.Context) (string, error) {
 // committing to reading an ad. See GetClassAdRaw.
 func (m *Message) GetClassAdRawBody(ctx context.Context, numExprs int) (string, error) {
 	var b strings.Builder
+	if numExprs < 0 {
+		return "", fmt.Errorf("invalid expression count %d", numExprs)
+	}
 	for i := 0; i < numExprs; i++ {
+		// A plaintext GetString at end-of-message returns "" without error; without
+		// this check a hostile count makes the loop spin (and the builder grow)
+		// long after the message has ended.
+		if m.exhausted() {
+			return "", fmt.Errorf("message ended after %d of %d expressions", i, numExprs)
+		}
 		exprStr, err := m.GetString(ctx)
 		if err != nil {
 			return "", fmt.Errorf("failed to read expression %d (expected %d): %w", i, numExprs, err)
